@@ -440,29 +440,41 @@ def tree_5(ctx, rep):
 
 
 # ---------------------------------------------------------------------------
+STRUCTURAL_ATTRS = {'parent', 'children', 'value', 'line', 'column', 'prefix', 'type', 'token_type', 'start_pos'}
+
+
 def memo_slots(ctx):
-    """Slots of tree classes that a non-constructor method assigns under an `is None` test."""
+    """Derived-data slots of tree classes: slots that are not structural and are assigned by a method other
+    than a constructor / property setter (of the declaring class or a subclass), e.g. lazily under an
+    `is None` test.  -> [(declaring class, slot, assigning method)]"""
     prog = ctx.prog
     root, classes = tree_hierarchy(ctx)
     out = []
+    seen = set()
     for c in classes:
-        for slot in (c.slots or ()):
-            for m in c.methods.values():
-                if m.name == '__init__':
-                    continue
-                cfg = None
-                for n in walk_own(m.node):
-                    if isinstance(n, ast.Assign) and any(norm(t) == 'self.%s' % slot for t in n.targets):
-                        cfg = cfg or ctx.cfg(m)
-                        node = [x for x in cfg.nodes if x.ast is n]
-                        if node and only_via(cfg, node[0], lambda e: isinstance(e, ast.Compare) and norm(e.left) == 'self.%s' % slot
-                                             and isinstance(e.ops[0], ast.Is) and norm(e.comparators[0]) == 'None', 'T'):
-                            out.append((c, slot, m))
+        slots = set()
+        for k in c.mro:
+            if isinstance(k, Cls) and k.slots:
+                slots |= set(k.slots)
+        for m in c.methods.values():
+            if m.name == '__init__' or any('setter' in d for d in m.decorators()):
+                continue
+            sn = ctx.cg.self_name(m)
+            for n in walk_own(m.node):
+                if isinstance(n, (ast.Assign, ast.AugAssign, ast.AnnAssign)):
+                    for t in (n.targets if isinstance(n, ast.Assign) else [n.target]):
+                        for sub in ([t] if not isinstance(t, (ast.Tuple, ast.List)) else t.elts):
+                            if isinstance(sub, ast.Attribute) and isinstance(sub.value, ast.Name) and sub.value.id == sn \
+                                    and sub.attr not in STRUCTURAL_ATTRS and (sub.attr in slots or c.has_dict()):
+                                decl = next((k for k in c.mro if isinstance(k, Cls) and k.slots and sub.attr in k.slots), c)
+                                if (decl.key, sub.attr) not in seen:
+                                    seen.add((decl.key, sub.attr))
+                                    out.append((decl, sub.attr, m))
     return out
 
 
 def tree_6(ctx, rep):
-    rep.rule('TREE-6', 'every memo slot of a tree class (slot filled lazily under an `is None` test) is reset by '
+    rep.rule('TREE-6', 'every derived-data slot of a tree class (non-structural attribute assigned outside constructors) is reset by '
                        'DiffParser.update before anything else happens; update returns only after _nodes_tree.close()')
     prog = ctx.prog
     memos = memo_slots(ctx)
